@@ -144,6 +144,8 @@ def main():
     first_diffs, first_flags = [], []
     if br.go_ok:
         for s in cfg["streams"]:
+            if s.get("tiers") and tier not in s["tiers"]:
+                continue
             if s.get("scenario"):
                 # Go-only scenario: the binary prints one line per run; " VIOL " marks a violation
                 sub = lambda xs: [x.replace("{seed}", str(seed)).replace("{tier}", tier).replace("{bin}", lib.BIN) for x in xs]
@@ -166,7 +168,7 @@ def main():
                         flagged_n += 1
                         if len(first_flags) < 400:
                             first_flags.append({"op": s["name"] + " " + " ".join(sub(s["scenario"])[1:]), "go": l[:600], "lean": "(scenario: no model line)"})
-                if rc != 0:
+                if rc != 0 and not (rc == 66 and any(" VIOL" in l for l in lines)):
                     broken.append({"kind": "scenario-crash", "what": "%s exited with %d: %s" % (s["name"], rc, err)})
                 if not lines:
                     broken.append({"kind": "scenario-empty", "what": s["name"] + " printed nothing"})
